@@ -135,8 +135,15 @@ c.ghost_vars['w'] = lambda x: VDict(GhostW, z3.K(sym.Str, z3.BoolVal(True)),
                                     z3.K(sym.Str, z3.IntVal(-1)))
 
 
+def _plist(x):
+  """The list of partial scopes the loop runs over (taken from the loop itself, so that the
+  name of the local holding it does not matter)."""
+  lst = getattr(getattr(x, 'it', None), 'lst', None)
+  return lst if lst is not None else x.env.partial_scopes
+
+
 def _P(x, j):
-  return z3.Select(x.env.partial_scopes.arr, j)
+  return z3.Select(_plist(x).arr, j)
 
 
 def _inv(x, k):
@@ -164,7 +171,7 @@ def _after(ex, x):
   """Hint (proved, then assumed): in the inheriting case the k-th partial scope
   is the prefix of length k."""
   n = _S(x).len
-  P = x.env.partial_scopes
+  P = _plist(x)
   hint = z3.Implies(x.a.inherit_scopes.e, sym.forall(
       [j_], z3.Implies(z3.And(0 <= j_, j_ <= n), z3.Select(P.arr, j_) == _pref(x, j_)),
       patterns=[_pref(x, j_), z3.Select(P.arr, j_)]))
